@@ -109,6 +109,10 @@ def make_problem(spec):
             return float(np.sum(np.abs(d)))
         if tname == "plateau":
             return float(np.sum(np.floor(np.abs(d) * 2.0)))
+        if tname == "deadzone":    # zero on a region that covers the plausible box: every value of the initial design is the same
+            return float(np.sum(np.maximum(0.0, np.abs(d) - 2.5) ** 2))
+        if tname == "const":
+            return 1.0
         if tname == "rosen":
             return float(np.sum(100.0 * (x[1:] - x[:-1] ** 2) ** 2 + (1 - x[:-1]) ** 2)) if D > 1 else float(d[0] ** 2)
         raise ValueError(tname)
